@@ -175,3 +175,15 @@ reg("C20", "checks.display", dict(quick=2600, thorough=60000), dict(quick=55, th
     "pre-emptive switch; distinct = distinct (case digest, interleaving digest)",
     assumptions=["IPython.display.display is stubbed; ipywidgets run without a kernel (dummy comm)"],
     chunk=8)
+
+
+CASES = {
+    "C01": (50000, 900000), "C02": (50000, 900000), "C04": (50000, 900000), "C06": (45000, 800000),
+    "C07": (50000, 900000), "C10": (45000, 800000), "C13": (25000, 450000), "C15": (40000, 700000),
+    "C16": (50000, 900000), "C19": (30000, 500000), "C20": (12000, 200000), "C03": (10000, 180000),
+    "C05": (9000, 160000), "C09": (10000, 180000), "C14": (9000, 160000), "C08": (800, 14000),
+    "C17": (9000, 160000), "C11": (5500, 100000), "C18": (5000, 90000),
+}
+for _p, (_q, _t) in CASES.items():
+    CHECKS[_p]["cases"] = dict(quick=_q, thorough=_t)
+    CHECKS[_p]["budget"] = dict(quick=50, thorough=1500)
